@@ -8,7 +8,8 @@ LostIds(line, lost) == {x.got : x \in lost}
 Class(line, bad) ==
    LET c == line.c IN
    (* F-C16-1: DefaultRefNameResolver maps sub/a.json#/../X and sub_a.json#/../X to the same name *)
-   IF c.shape = "collision" /\ bad = {"resolves_to_same_content"} THEN "default_name_collision"
+   (*          and ignores the origin: <dir>/a.json#/../X and https://m.example<dir>/a.json#/../X get the same name too     *)
+   IF c.shape \in {"collision", "samepath_twohosts"} /\ bad = {"resolves_to_same_content"} THEN "default_name_collision"
    (* F-C16-2: references inside a callback that lives in an external file are not rewritten      *)
    ELSE IF c.kind = "callbacks" /\ c.shape \in {"childlocal", "childlocal_shadow"}
            /\ bad \subseteq {"reloads_without_external_refs", "resolves_to_same_content"}
